@@ -4,7 +4,9 @@ package main
 
 import (
 	"errors"
+	"math"
 
+	zxcvbn "github.com/nbutton23/zxcvbn-go"
 	"github.com/nbutton23/zxcvbn-go/scoring"
 )
 
@@ -66,7 +68,7 @@ func VP_C17_ConditionParser() {
 	tails := []string{"", " x"}
 	if vpTier() == 0 {
 		seps = seps[:2]
-		kinds = []string{"score", "time", "Score"}
+		kinds = []string{"score", "entropy", "Score"}
 		nums = []string{"4", "5", "010", "0x3", "18446744073709551616", ""}
 	}
 	kindS := kinds[vpChoose("kind", len(kinds))]
@@ -94,18 +96,20 @@ func VP_C17_ConditionParser() {
 		vpAssert("threshold-as-written", p.threshold == th)
 		// arbitrary strength: integers so that the reference comparison is exact
 		sc := vpInt("score", 0, 4)
-		en := uint32(vpInt("entropy", 0, 1<<31))
-		ct := uint32(vpInt("cracktime", 0, 1<<31))
-		m := scoring.MinEntropyMatch{Score: sc, Entropy: float64(en), CrackTime: float64(ct)}
+		// entropy and crack time are arbitrary non-negative floating-point values (fractions included)
+		en := math.Float64frombits(vpU64("entropy"))
+		ct := math.Float64frombits(vpU64("cracktime"))
+		vpAssume(en >= 0 && en <= 1e18 && ct >= 0 && ct <= 1e18)
+		m := scoring.MinEntropyMatch{Score: sc, Entropy: en, CrackTime: ct}
 		got := p.condition(m, p.threshold)
 		var want bool
 		switch kind {
 		case "score":
 			want = uint64(sc) >= th
 		case "entropy":
-			want = th < 1<<53 && uint64(en) >= th
+			want = en >= float64(th)
 		case "time":
-			want = th < 1<<53 && uint64(ct) >= th
+			want = ct >= float64(th)
 		}
 		vpAssert("verdict-is-the-documented-comparison", got == want)
 	}
@@ -195,10 +199,14 @@ func VP_C17_VerdictIsPerUserAndPassword() {
 	if err != nil {
 		panic("setup")
 	}
-	pws := []string{"zaphod.beeblebrox-42", "a"}
+	long := make([]byte, 257) // longer than any of the transports' field limits, trivially weak
+	for i := range long {
+		long[i] = 'a'
+	}
+	pws := []string{"zaphod.beeblebrox-42", "a", string(long)}
 	users := []string{"bob", "zaphod.beeblebrox-42"}
-	pw1, u1 := pws[vpChoose("password1", 2)], users[vpChoose("user1", 2)]
-	pw2, u2 := pws[vpChoose("password2", 2)], users[vpChoose("user2", 2)]
+	pw1, u1 := pws[vpChoose("password1", 3)], users[vpChoose("user1", 2)]
+	pw2, u2 := pws[vpChoose("password2", 3)], users[vpChoose("user2", 2)]
 	p.Check(pw1, u1)
 	got, gerr := p.Check(pw2, u2)
 	ref, rerr := NewPasswordPolicy("zxcvbn", cond)
@@ -207,6 +215,19 @@ func VP_C17_VerdictIsPerUserAndPassword() {
 	}
 	want, werr := ref.Check(pw2, u2)
 	vpAssert("model: verdict-depends-only-on-this-password-and-user", got == want && (gerr != nil) == (werr != nil))
+	// ... and it is the documented comparison applied to the strength of exactly this password
+	// (with the user name and the application name as user inputs)
+	m := zxcvbn.PasswordStrength(pw2, []string{u2, "whawty"})
+	doc := false
+	switch cond {
+	case "score >= 3":
+		doc = m.Score >= 3
+	case "entropy >= 40":
+		doc = m.Entropy >= 40
+	case "time >= 1000":
+		doc = m.CrackTime >= 1000
+	}
+	vpAssert("model: verdict-is-the-documented-comparison-of-this-password's-strength", got == doc)
 	vpCover("end")
 }
 
